@@ -137,6 +137,13 @@ class Result:
                 return 'UBSAN'
             if 'LeakSanitizer' in err:
                 return 'LSAN'
+            if rc == 99 or '== Conditional jump' in err or 'uninitialised value' in err or '== Invalid ' in err:
+                for line in err.splitlines():
+                    if 'uninitialised' in line:
+                        return 'VALGRIND:uninitialised'
+                    if 'Invalid read' in line or 'Invalid write' in line or 'Invalid free' in line:
+                        return 'VALGRIND:invalid-access'
+                return 'VALGRIND:other'
             return 'DIED-%s' % rc
         return None
 
@@ -149,6 +156,11 @@ class Result:
             if m:
                 return '%s:%s' % (os.path.basename(m.group(1)), re.sub(r'-?\d+', 'N', m.group(3))[:70].replace(' ', '_'))
         for line in err.splitlines():
+            m = re.search(r'==\s+(?:at|by) 0x[0-9A-F]+: ([\w.]+) \((\w+\.c):\d+\)', line)
+            if m:
+                m_name = m.group(1).split('._omp_fn')[0]
+            if m and not m.group(2).startswith(('sim', 'driver', 'hooks', 'tsanhooks')) and m.group(2) not in ('vg_replace_malloc.c',):
+                return m_name
             m = re.search(r'#\d+ 0x[0-9a-f]+ in (\w+) .*?/(lib/src|src)/([\w.]+):(\d+)', line)
             if m:
                 return m.group(1)
@@ -175,7 +187,8 @@ class Worker:
         env = dict(os.environ)
         env['TZ'] = 'UTC'
         env.pop('ASAN_OPTIONS', None)
-        self.p = subprocess.Popen([self.bin], stdin=subprocess.PIPE, stdout=subprocess.PIPE, stderr=self.errf, bufsize=0, env=env, preexec_fn=_pdeathsig)
+        cmd = list(self.bin) if isinstance(self.bin, (list, tuple)) else [self.bin]
+        self.p = subprocess.Popen(cmd, stdin=subprocess.PIPE, stdout=subprocess.PIPE, stderr=self.errf, bufsize=0, env=env, preexec_fn=_pdeathsig)
         self.buf = b''
         self.nplans = 0
 
